@@ -155,7 +155,12 @@ def writer_cases(quick, seed):
     t1 = F.gen_data("text", 6000, seed)
     m1 = F.gen_data("mixed", 12000, seed + 1)
     x1 = F.gen_data("x86", 9000, seed + 3)
+    r1 = F.gen_data("random", 20000, seed + 5)
     W = [
+        # incompressible input: LZMA2 falls back to uncompressed chunks (a different write path to the sink)
+        dict(name="lzma2_incompressible", enc={"kind": "lzma2", "preset": 1, "dict": 1 << 16}, data=r1, writes=[6000]),
+        dict(name="xz_incompressible", enc={"kind": "xz", "preset": 1, "dict": 1 << 16, "check": "crc32"}, data=r1 + t1, writes=[9000]),
+        dict(name="lzip_incompressible", enc={"kind": "lzip", "preset": 1, "dict": 1 << 16}, data=r1[:8000], writes=[3000]),
         dict(name="lzma_header_known", enc={"kind": "lzma", "preset": 1, "dict": 4096, "lzma_mode": "header_known"}, data=t1, writes=[1000]),
         dict(name="lzma_raw_eos", enc={"kind": "lzma", "preset": 6, "dict": 1 << 16, "lzma_mode": "raw_eos"}, data=m1, writes=[777, 3]),
         dict(name="lzma2", enc={"kind": "lzma2", "preset": 3, "dict": 1 << 16}, data=m1, writes=[4096], flush_every=2),
@@ -193,6 +198,10 @@ def trunc_anchors(s, need, quick):
         for d in (-1, 0, 1):
             if 0 <= b + d < L:
                 A.add(b + d)
+    # every offset inside every short record (headers, trailers, paddings, checks, index, footer)
+    for (k, a, b) in s.get("layout", []):
+        if b - a <= 40:
+            A.update(x for x in range(a, b) if x < L)
     stride = max(1, L // (24 if quick else 200))
     A.update(range(0, L, stride))
     return sorted(A)
